@@ -469,6 +469,9 @@ func genC19(r *rand.Rand, tier string) []Case {
 		}
 		keys := [][]byte{[]byte("a"), []byte("b"), []byte("c"), []byte("d")}
 		c := &c19Case{Mode: "db", Opts: dbOpts{MemstoreBytes: 1 << 30, Threshold: []int{0, 1, 3}[r.Intn(3)], MaxSize: 5 << 30, RatioPct: 20, WBuf: 4096, RBuf: 4096}}
+		if i%4 == 3 {
+			c.Opts.AsyncWAL, c.Opts.DirectIOWAL = true, dioAvailable // the log through direct I/O (probed on every Open)
+		}
 		cycles := 3 + r.Intn(18)
 		if tier == "thorough" && i%20 == 0 {
 			cycles = 200
